@@ -10,7 +10,7 @@ trap 'git -C /repo worktree remove --force "$WT" >/dev/null 2>&1; rm -rf "$WT"' 
 # carry uncommitted working-tree edits of /repo (none expected) — checks are against HEAD + patch
 git -C "$WT" apply "$PATCH" || { echo "patch does not apply"; exit 3; }
 if [ "${RUN_TESTS:-0}" = "1" ]; then
-  (cd "$WT" && PYTHONPATH="$WT" /venv/bin/python -m pytest -q -p no:cacheprovider --timeout=900 -x tests 2>&1 | tail -3)
+  (cd "$WT" && PYTHONPATH="$WT" /venv/bin/python -m pytest -q -p no:cacheprovider --timeout=900 tests 2>&1 | tail -3)
 fi
 cd /verif && OPFMON_REPO="$WT" OPFMON_NO_EVIDENCE=1 ./check "$ID" "$TIER"
 echo "exit=$?"
